@@ -54,9 +54,10 @@ pub fn run(args: &Args) {
             let edge: [u16; 6] = [0, 1, 0x7FFF, 0x8000, 0xFFFE, 0xFFFF];
             let mut pairs: Vec<(u16, u16)> = Vec::new();
             if args.thorough { for a in edge.iter().take(4) { for b in edge.iter().take(4) { pairs.push((*a, *b)); } } } else { pairs.push((1, 1)); pairs.push((0x8000, 0xFFFF)); pairs.push((0, 7)); }
-            let mut emit = |size: u16, cnt: u16, num: u16, tr: &mut TraceOut, res: &mut Results| {
-                let b = header_bytes(size, cnt, num, 31, 8);
-                res.case(((size as u64) << 32) | ((cnt as u64) << 16) | num as u64, true);
+            // the size semantics do not depend on the type code: every type code meets every kind of size
+            let mut emit = |size: u16, cnt: u16, num: u16, ty: u8, tr: &mut TraceOut, res: &mut Results| {
+                let b = header_bytes(size, cnt, num, ty, 8);
+                res.case(((ty as u64) << 48) | ((size as u64) << 32) | ((cnt as u64) << 16) | num as u64, true);
                 let h = match decode_message_header(&mut b.as_slice()) { Ok(h) => h, Err(_) => return };
                 let r = guarded(|| {
                     let bytes = h.message_size_bytes();
@@ -70,10 +71,11 @@ pub fn run(args: &Args) {
                     Err(_) => tr.ev(json!({"size": size, "cnt": cnt, "num": num, "segmented": false, "segcnt": -1, "segnum": -1, "bhi": 0, "blo": 0, "uhi": 0, "ulo": 0, "ssz": -1, "panic": true})),
                 }
             };
-            for size in 0..=65535u16 { for (c, n) in &pairs { emit(size, *c, *n, &mut tr, &mut res); } }
+            for size in 0..=65535u16 { for (j, (c, n)) in pairs.iter().enumerate() { emit(size, *c, *n, if j == 0 { 31 } else { (size as usize * 7 + j * 37) as u8 }, &mut tr, &mut res); } }
             let seeded = if args.thorough { 65536 } else { 16384 };
-            for _ in 0..seeded { let (c, n) = (rng.next() as u16, rng.next() as u16); emit(0xFFFF, c, n, &mut tr, &mut res); }
-            for c in edge { for n in edge { emit(0xFFFF, c, n, &mut tr, &mut res); emit(0xFFFE, c, n, &mut tr, &mut res); } }
+            for k in 0..seeded { let (c, n) = (rng.next() as u16, rng.next() as u16); emit(0xFFFF, c, n, if k % 2 == 0 { 31 } else { rng.next() as u8 }, &mut tr, &mut res); }
+            for c in edge { for n in edge { emit(0xFFFF, c, n, 31, &mut tr, &mut res); emit(0xFFFE, c, n, 31, &mut tr, &mut res); } }
+            for ty in 0..=255u8 { for size in [0xFFFFu16, 0xFFFE, 0, 1208] { emit(size, 2, 3, ty, &mut tr, &mut res); emit(size, 0x8000, 0xFFFF, ty, &mut tr, &mut res); } }
             res.sample(json!({"domain": "all 65,536 size values x (count, number) pairs; seeded pairs with size = 0xFFFF"}));
             tr.finish();
             res.finish();
